@@ -65,6 +65,15 @@ def answerTokens (toks : List String) : String :=
       | some k => showVec (us.map (ckernel k))
       | none => "error:NotImplementedError"
     | none => "bad"
+  | ["bwcount", e, sz] =>
+    match parseNatVec? sz with
+    | some sizes =>
+      if sizes.isEmpty ∨ sizes.any (· = 0) then "error:ValueError" else
+      if e = "dense" then showRat (bandwidthCount .denseSmooth sizes)
+      else if e = "irregular" then showRat (bandwidthCount .irregularSmooth sizes)
+      else if e = "covariance" then showRat (bandwidthCount .covariance sizes)
+      else "bad"
+    | none => "bad"
   | ["monos2", d] =>
     match d.toNat? with
     | some d => ";".intercalate ((monos2 d).map fun e => toString e.1 ++ "," ++ toString e.2)
